@@ -547,6 +547,8 @@ def replay_case(art):
     inpath = art + ".input"
     open(inpath, "w").write(",".join(str(x) for x in v["input"]))
     args = [v["side"], "@" + inpath, ",".join(str(c) for c in v["cuts"]), ",".join(v["methods"])]
+    if v["side"] == "fss":
+        args = ["fss", "@" + inpath]
     if v["side"] == "advance":
         if sum(v["cuts"]) > (1 << 24):
             return None, "stable prefix too large to build natively"
@@ -558,6 +560,15 @@ def replay_case(art):
     p = subprocess.run(["cargo", "run", "--offline", "-q", "--"] + args, cwd=d, env=env, stdout=subprocess.PIPE, stderr=subprocess.STDOUT, text=True, timeout=900)
     out = p.stdout
     import re as _re
+    if v["side"] == "fss":
+        mm = _re.search(r"FSS (PANIC|none|\d+)", out)
+        if not mm:
+            return None, "replay driver failed: " + out[-400:]
+        inp = v["input"]
+        want = next((str(i) for i in range(len(inp) - 1) if inp[i] == 0xFE and inp[i + 1] == 0xFD), "none")
+        if mm.group(1) != want:
+            return True, "native find_stuff_sequence(%s) -> %s, the first FE FD is at %s" % (_short(inp), mm.group(1), want)
+        return False, "native find_stuff_sequence agrees on %s" % _short(inp)
     if v["side"] == "advance":
         mm = _re.search(r"ADVANCE (PANIC|returned=(\d+) removed=(\d+))", out)
         if not mm:
@@ -1770,3 +1781,85 @@ class LenSlice(Slice):
     def __init__(self, n):
         self.elems = _LenOnly(n)
         self.tag = "io"
+
+
+class FindStuffSequence(CodecJob):
+    """hcobs::find_stuff_sequence from its MIR against the contract the other Engine X jobs substitute for it."""
+    name = "c07::find_stuff_sequence_contract[mirx]"
+    pid = "C07"
+
+    def __init__(self, tier="quick", seed=0, pid="C07"):
+        CodecJob.__init__(self, tier, seed)
+        self.pid = pid
+        self.name = "%s::find_stuff_sequence_contract[mirx]" % pid.lower()
+
+    def configs(self):
+        top = 10 if self.tier == "quick" else 13
+        for L in range(0, top + 1):
+            yield {"L": L, "sym": list(range(L))}
+        for L, sym in ((40, [0, 1, 14, 15, 16, 17, 31, 32, 33, 38, 39]), (70, [15, 16, 17, 31, 32, 47, 48, 63, 64, 65, 69]), (300, [0, 127, 128, 129, 255, 256, 257, 298, 299])):
+            for fill in (0, 0xFE, 0xFD):
+                yield {"L": L, "sym": sym, "fill": fill}
+
+    def bounds(self):
+        return ("hcobs::find_stuff_sequence (MIR: windows(2).enumerate() loop) returns the index of the first FE FD or None for EVERY byte string of length <= 10 (quick) / 13 (thorough), "
+                "and for 40 / 70 / 300-byte strings that are symbolic around offsets 16, 32, 48, 64, 128, 256 and constant (00, FE or FD) elsewhere")
+
+    def functions(self):
+        return ["hcobs::find_stuff_sequence (MIR)", "slice::windows / Enumerate::next as cursors, <&[u8] as PartialEq<[u8; 2]>>::eq as a symbolic comparison"]
+
+    def check(self, mod, cfg, q):
+        from mirx import Interp
+        L = cfg["L"]
+        data = windowed(L, set(cfg["sym"]), cfg.get("fill", 0))
+        decls = ["(declare-const b%d (_ BitVec 8))" % i for i in sorted(set(cfg["sym"])) if i < L]
+        it = Interp(mod, consts={"STUFF": Slice([0xFE, 0xFD], "STUFF"), "STUFF_SEQUENCE": Slice([0xFE, 0xFD], "STUFF")}, decls=decls, max_steps=400000)
+        it.real_fss = True
+        body = [b[-1] for k, b in mod.bodies.items() if k == "find_stuff_sequence" or k.endswith("::find_stuff_sequence")]
+        if len(body) != 1:
+            raise Unsupported("cannot find find_stuff_sequence")
+        try:
+            res = it.call(body[0], [Slice(data, "in")])
+        finally:
+            it.z3.close()
+        alts = []
+
+        def first_is(i):
+            cs = []
+            for j in range(i):
+                s = AND(byte_eq(data[j], 0xFE), byte_eq(data[j + 1], 0xFD))
+                cs.append(NOT(s))
+            cs.append(AND(byte_eq(data[i], 0xFE), byte_eq(data[i + 1], 0xFD)))
+            return AND(*cs)
+
+        for r in res:
+            c = AND(*r.state.cond)
+            if c is False:
+                continue
+            if r.kind != "return":
+                alts.append("true" if c is True else c)
+                continue
+            v = r.value
+            if v.name == "Some":
+                i = v.fields[0]
+                ok = first_is(i) if (isinstance(i, int) and 0 <= i < L - 1) else False
+            else:
+                ok = AND(*[NOT(AND(byte_eq(data[j], 0xFE), byte_eq(data[j + 1], 0xFD))) for j in range(max(L - 1, 0))])
+            bad = NOT(ok)
+            x = AND(c, None if bad is True else bad) if bad is not False else False
+            if x is not False:
+                alts.append("true" if x is True else x)
+        tag = "fss-L%d-f%s" % (L, cfg.get("fill", "s"))
+        a, ans, model, path = q.ask(tag, decls, [mir.disj(alts)]) if alts else ("unsat", None, "", "")
+        ob = [("find_stuff_sequence on %d bytes: first FE FD or None" % L, a)]
+        viol = []
+        if a == "sat":
+            mv = mir.model_values(model)
+            inp = [int(mv.get(x.term, 0)) if isinstance(x, Sym) else x for x in data]
+            viol.append({"desc": "find_stuff_sequence does not return the first FE FD", "side": "fss", "input": inp, "cuts": [], "methods": [], "limits": list(PROD),
+                         "expected": {"kind": "ok", "bytes": []}, "smt2": path})
+        cov = [AND(*r.state.cond) for r in res]
+        cov = ["true" if c is True else c for c in cov if c is not False]
+        a2, _, _, _ = q.ask(tag + "-cov", decls, ["(not %s)" % mir.disj(cov)], get_model=False) if cov else ("sat", None, "", "")
+        ob.append(("find_stuff_sequence on %d bytes: the enumerated paths cover every input" % L, a2))
+        return ob, viol, {"config": {k: (v if k != "sym" else v[:8]) for k, v in cfg.items()}, "paths": len(res)}, len(res)
